@@ -193,7 +193,9 @@ func (p *Provider) ruleSetsChanged(evt fsnotify.Event) error {
 	switch {
 	case evt.Has(fsnotify.Create) || evt.Has(fsnotify.Write) || evt.Has(fsnotify.Chmod):
 		err = p.ruleSetCreatedOrUpdated(evt.Name)
-	case evt.Has(fsnotify.Remove):
+	case evt.Has(fsnotify.Remove) || evt.Has(fsnotify.Rename):
+		// a rename event is reported for the old name of a file, which is not present
+		// under that name anymore
 		err = p.ruleSetDeleted(evt.Name)
 	}
 
